@@ -14,8 +14,10 @@ import (
 	"reflect"
 	"sort"
 	"strings"
+	"sync"
 	"testing"
 	"time"
+	"unsafe"
 
 	"github.com/relab/hotstuff"
 	"github.com/relab/hotstuff/core"
@@ -35,9 +37,33 @@ type c13Reply struct {
 
 type c13Sender struct {
 	chain *Blockchain
+	mu    sync.Mutex
 	tbl   map[hotstuff.Hash]c13Reply
 	given []*hotstuff.Block // blocks handed to the store by this stub (conc + answers), in order
 	asked []hotstuff.Hash
+	// in-flight mode: RequestBlock announces itself on entered and waits for its answer
+	flight  bool
+	entered chan *c13Flight
+}
+
+// c13Flight: one RequestBlock call that is waiting for the peers' answer.
+type c13Flight struct {
+	hash    hotstuff.Hash
+	ctx     context.Context
+	release chan *hotstuff.Block // nil = no answer
+}
+
+func (s *c13Sender) requestInFlight(ctx context.Context, h hotstuff.Hash) (*hotstuff.Block, bool) {
+	f := &c13Flight{hash: h, ctx: ctx, release: make(chan *hotstuff.Block, 1)}
+	s.entered <- f
+	b := <-f.release
+	if b == nil {
+		return nil, false
+	}
+	s.mu.Lock()
+	s.given = append(s.given, b)
+	s.mu.Unlock()
+	return b, true
 }
 
 func (s *c13Sender) NewView(hotstuff.ID, hotstuff.SyncInfo) error { return nil }
@@ -45,7 +71,10 @@ func (s *c13Sender) Vote(hotstuff.ID, hotstuff.PartialCert) error { return nil }
 func (s *c13Sender) Timeout(hotstuff.TimeoutMsg)                  {}
 func (s *c13Sender) Propose(*hotstuff.ProposeMsg)                 {}
 func (s *c13Sender) Sub([]hotstuff.ID) (core.Sender, error)       { return s, nil }
-func (s *c13Sender) RequestBlock(_ context.Context, h hotstuff.Hash) (*hotstuff.Block, bool) {
+func (s *c13Sender) RequestBlock(ctx context.Context, h hotstuff.Hash) (*hotstuff.Block, bool) {
+	if s.flight {
+		return s.requestInFlight(ctx, h)
+	}
 	s.asked = append(s.asked, h)
 	r, ok := s.tbl[h]
 	if !ok {
@@ -211,7 +240,7 @@ func (c *c13Case) emit(op, obs, desc string) {
 	if c.record {
 		c.ops = append(c.ops, op)
 		c.obs = append(c.obs, obs)
-		c.peeks = append(c.peeks, fmt.Sprintf("(Some %d, None)", uint64(c.chain.pruneHeight)))
+		c.peeks = append(c.peeks, fmt.Sprintf("(Some %d, None)", uint64(c.chain.PruneHeight())))
 		c.desc = append(c.desc, desc)
 	}
 }
@@ -305,26 +334,70 @@ func (c *c13Case) StoreAgain(b *hotstuff.Block) {
 	}
 }
 
+// c13Snap: what the harness can see of the store. The unexported maps are read through reflection
+// so that the harness still builds and runs when their representation changes: blocks falls back to
+// LocalGet over every hash the case knows; blockAtHeight is compared with the model only while it
+// is the map[View]*Block the model mirrors (atKnown), otherwise it is only used for "storing again
+// changes nothing" in a generic form (view -> hashes).
 type c13Snap struct {
-	blocks map[hotstuff.Hash]*hotstuff.Block
-	at     map[hotstuff.View]*hotstuff.Block
-	ph     hotstuff.View
+	blocks  map[hotstuff.Hash]*hotstuff.Block
+	at      map[hotstuff.View]*hotstuff.Block
+	atKnown bool
+	atAny   map[uint64][]hotstuff.Hash
+	ph      hotstuff.View
+}
+
+func c13Field(chain *Blockchain, name string) (any, bool) {
+	f := reflect.ValueOf(chain).Elem().FieldByName(name)
+	if !f.IsValid() || !f.CanAddr() {
+		return nil, false
+	}
+	return reflect.NewAt(f.Type(), unsafe.Pointer(f.UnsafeAddr())).Elem().Interface(), true
 }
 
 func (c *c13Case) snapshot() c13Snap {
-	c.chain.mut.Lock()
-	defer c.chain.mut.Unlock()
-	s := c13Snap{blocks: map[hotstuff.Hash]*hotstuff.Block{}, at: map[hotstuff.View]*hotstuff.Block{}, ph: c.chain.pruneHeight}
-	for k, b := range c.chain.blocks {
-		s.blocks[k] = b
+	s := c13Snap{blocks: map[hotstuff.Hash]*hotstuff.Block{}, at: map[hotstuff.View]*hotstuff.Block{},
+		atAny: map[uint64][]hotstuff.Hash{}, ph: c.chain.PruneHeight()}
+	known := false
+	if v, ok := c13Field(c.chain, "blocks"); ok {
+		if m, ok := v.(map[hotstuff.Hash]*hotstuff.Block); ok {
+			known = true
+			for k, b := range m {
+				s.blocks[k] = b
+			}
+		}
 	}
-	for k, b := range c.chain.blockAtHeight {
-		s.at[k] = b
+	if !known {
+		for h := range c.intern {
+			if b, ok := c.chain.LocalGet(h); ok {
+				s.blocks[h] = b
+			}
+		}
+	}
+	if v, ok := c13Field(c.chain, "blockAtHeight"); ok {
+		switch m := v.(type) {
+		case map[hotstuff.View]*hotstuff.Block:
+			s.atKnown = true
+			for k, b := range m {
+				s.at[k] = b
+				if b != nil {
+					s.atAny[uint64(k)] = []hotstuff.Hash{b.Hash()}
+				}
+			}
+		case map[hotstuff.View][]*hotstuff.Block:
+			for k, bs := range m {
+				for _, b := range bs {
+					if b != nil {
+						s.atAny[uint64(k)] = append(s.atAny[uint64(k)], b.Hash())
+					}
+				}
+			}
+		}
 	}
 	return s
 }
 func (a c13Snap) equal(b c13Snap) bool {
-	if a.ph != b.ph || len(a.blocks) != len(b.blocks) || len(a.at) != len(b.at) {
+	if a.ph != b.ph || len(a.blocks) != len(b.blocks) || len(a.atAny) != len(b.atAny) {
 		return false
 	}
 	for k, x := range a.blocks {
@@ -332,9 +405,15 @@ func (a c13Snap) equal(b c13Snap) bool {
 			return false
 		}
 	}
-	for k, x := range a.at {
-		if y, ok := b.at[k]; !ok || y.Hash() != x.Hash() {
+	for k, x := range a.atAny {
+		y, ok := b.atAny[k]
+		if !ok || len(x) != len(y) {
 			return false
+		}
+		for i := range x {
+			if x[i] != y[i] {
+				return false
+			}
 		}
 	}
 	return true
@@ -407,6 +486,140 @@ func (c *c13Case) Get(h hotstuff.Hash, conc []*hotstuff.Block, ans *hotstuff.Blo
 		} else {
 			c.ok()
 		}
+	}
+}
+
+// GetInFlight: a goroutine calls Get(h); while its RequestBlock is waiting for the peers' answer
+// (the store has released its lock), the harness stores the blocks of during and, if second, lets a
+// second Get(h) run to completion (its own fetch is answered with ans2); then the first fetch is
+// answered with ans (nil = nobody answers). All answers are honest (hash h) or nil.
+// For the model this is Get with the concurrent arrivals during ++ [ans2 if the second Get fetched it].
+func (c *c13Case) GetInFlight(h hotstuff.Hash, during []*hotstuff.Block, second bool, ans2, ans *hotstuff.Block) {
+	type res struct {
+		b   *hotstuff.Block
+		ok  bool
+		pan any
+	}
+	call := func() chan res {
+		ch := make(chan res, 1)
+		go func() {
+			var r res
+			defer func() {
+				if p := recover(); p != nil {
+					r.pan = p
+				}
+				ch <- r
+			}()
+			r.b, r.ok = c.chain.Get(h)
+		}()
+		return ch
+	}
+	wait := func(ch chan res, what string) (res, bool) {
+		select {
+		case r := <-ch:
+			return r, true
+		case <-time.After(10 * time.Second):
+			c.fail("store:get-does-not-return", what+" did not return within 10s")
+			c.panicked = true
+			return res{}, false
+		}
+	}
+	c.snd.entered = make(chan *c13Flight, 4)
+	c.snd.flight = true
+	defer func() { c.snd.flight = false }()
+	g0 := len(c.snd.given)
+	_, hadBefore := c.present[h]
+	conc := []*hotstuff.Block{}
+	arrives := false
+	done1 := call()
+	var r1 res
+	var desc2 string
+	select {
+	case r1 = <-done1: // served locally, nothing was in flight
+		during, second = nil, false
+	case f1 := <-c.snd.entered:
+		for _, x := range during {
+			c.chain.Store(x)
+			c.present[x.Hash()] = x
+			conc = append(conc, x)
+			if x.Hash() == h {
+				arrives = true
+				if f1.ctx.Err() != nil {
+					c.env.v.Count("inflight_fetch_cancelled_by_store")
+				}
+			}
+		}
+		if second {
+			done2 := call()
+			var r2 res
+			fetched2 := false
+			select {
+			case r2 = <-done2:
+			case f2 := <-c.snd.entered:
+				fetched2 = true
+				f2.release <- ans2
+				var ok bool
+				if r2, ok = wait(done2, "the second Get"); !ok {
+					f1.release <- ans
+					return
+				}
+			}
+			if fetched2 && ans2 != nil {
+				conc = append(conc, ans2)
+				arrives = arrives || ans2.Hash() == h
+			}
+			desc2 = fmt.Sprintf(", a second Get(#%d) meanwhile (peers answer %s) -> %s", c.id(h), c.name(ans2), c.name(r2.b))
+			switch {
+			case r2.pan != nil:
+				c.fail("store:panic", fmt.Sprintf("second Get(#%d) panicked: %v", c.id(h), r2.pan))
+			case r2.ok && (r2.b == nil || r2.b.Hash() != h):
+				c.fail("store:get-wrong-hash", fmt.Sprintf("second Get(#%d) returned %s", c.id(h), c.name(r2.b)))
+			case r2.ok != arrives:
+				c.fail("store:get-availability", fmt.Sprintf("second Get(#%d) ok=%v but the block is available=%v", c.id(h), r2.ok, arrives))
+			default:
+				c.ok()
+			}
+		}
+		f1.release <- ans
+		var ok bool
+		if r1, ok = wait(done1, "Get with its fetch in flight"); !ok {
+			return
+		}
+	case <-time.After(10 * time.Second):
+		c.fail("store:get-does-not-return", "Get neither returned nor asked the sender within 10s")
+		c.panicked = true
+		return
+	}
+	c.snd.mu.Lock()
+	for _, x := range c.snd.given[g0:] {
+		c.present[x.Hash()] = x
+	}
+	c.snd.mu.Unlock()
+	replies := []*hotstuff.Block{}
+	if ans != nil {
+		replies = append(replies, ans)
+	}
+	op, desc := "", "Get in flight"
+	if c.record {
+		op = fmt.Sprintf("(OGet %d %s %s)", c.id(h), c.gBs(conc), c.gBs(replies))
+		desc = fmt.Sprintf("Get #%d; while its fetch is pending: Store %s%s; then the peers answer %s", c.id(h), c.names_(during), desc2, c.name(ans))
+	}
+	if r1.pan != nil {
+		c.panicked = true
+		c.emit(op, "RPanic", desc+" -> PANIC "+fmt.Sprint(r1.pan))
+		c.fail("store:panic", desc+" panicked: "+fmt.Sprint(r1.pan))
+		return
+	}
+	if c.record {
+		c.emit(op, "(RBlock "+c.gOB(r1.b, r1.ok)+")", desc+" -> "+c.name(r1.b))
+	}
+	c.env.v.Count("inflight_gets")
+	if r1.ok && (r1.b == nil || r1.b.Hash() != h) {
+		c.fail("store:get-wrong-hash", fmt.Sprintf("Get(#%d) with its fetch in flight returned %s", c.id(h), c.name(r1.b)))
+	} else if have := hadBefore || arrives || ans != nil; have != r1.ok {
+		c.fail("store:get-availability", fmt.Sprintf("Get(#%d) with its fetch in flight: ok=%v but the block is available=%v", c.id(h), r1.ok, have))
+	} else {
+		c.ok()
 	}
 }
 
@@ -604,8 +817,14 @@ func (c *c13Case) finish(kind string) {
 	for i := range c.ops {
 		steps[i] = "(" + c.ops[i] + ", " + c.obs[i] + ", " + c.peeks[i] + ")"
 	}
-	term := fmt.Sprintf("(PC false %s\n %s\n (D %s (Some %s) %d None))", c.gB(c.genesis), gList(steps),
-		gList(bs), gList(as), uint64(snap.ph))
+	atTerm := "None"
+	if snap.atKnown {
+		atTerm = "(Some " + gList(as) + ")"
+	} else {
+		c.env.v.Count("blockAtHeight_not_map_View_Block")
+	}
+	term := fmt.Sprintf("(PC false %s\n %s\n (D %s %s %d None))", c.gB(c.genesis), gList(steps),
+		gList(bs), atTerm, uint64(snap.ph))
 	meta := map[string]any{"kind": kind, "ops": c.desc}
 	if len(c.fails) > 0 {
 		meta["fingerprint"] = c.fails[0].Fingerprint
@@ -831,6 +1050,75 @@ func TestVerifC13(t *testing.T) {
 		})
 	}
 
+	// ---- stream "inflight": a block is stored (or fetched by a second Get) while a fetch for it is
+	// pending, and the pending fetch still succeeds; later the block is abandoned or committed
+	{
+		g := hotstuff.GetGenesis()
+		a := c13Block(g.Hash(), 1, 1)
+		b := c13Block(a.Hash(), 2, 2)
+		cc := c13Block(b.Hash(), 3, 3)
+		d := c13Block(cc.Hash(), 4, 4)
+		x := c13Block(a.Hash(), 2, 5) // equivocates with b; abandoned when cc is committed
+		y := c13Block(x.Hash(), 3, 6) // its child, same view as cc
+		z := c13Block(g.Hash(), 3, 7) // a lone fork in view 3
+		for ti, tg := range []*hotstuff.Block{x, b, y, z, cc} {
+			for mode := 0; mode < 6; mode++ {
+				for order := 0; order < 3; order++ {
+					key := fmt.Sprintf("inflight target=%d mode=%d order=%d", ti, mode, order)
+					env.runCase("inflight", key, true, true, func(c *c13Case) {
+						c.Store(a)
+						others := []*hotstuff.Block{b, cc, x, y, z}
+						if order == 1 {
+							others = []*hotstuff.Block{z, y, x, cc, b}
+						}
+						late := []*hotstuff.Block{}
+						for _, o := range others {
+							if o == tg {
+								continue
+							}
+							if order == 2 && o.View() == tg.View() {
+								late = append(late, o) // the siblings arrive after the in-flight block
+								continue
+							}
+							c.Store(o)
+						}
+						h := tg.Hash()
+						switch mode {
+						case 0: // stored while the fetch is pending; the fetch still delivers it
+							c.GetInFlight(h, []*hotstuff.Block{tg}, false, nil, tg)
+						case 1: // stored while the fetch is pending; the fetch finds nobody
+							c.GetInFlight(h, []*hotstuff.Block{tg}, false, nil, nil)
+						case 2: // a second Get fetches it while the first is pending; both deliver
+							c.GetInFlight(h, nil, true, tg, tg)
+						case 3: // second Get delivers, the first finds nobody
+							c.GetInFlight(h, nil, true, tg, nil)
+						case 4: // Store, then a second Get (local by then), then the first delivers
+							c.GetInFlight(h, []*hotstuff.Block{tg}, true, tg, tg)
+						case 5: // other blocks arrive meanwhile, the fetch delivers
+							c.GetInFlight(h, []*hotstuff.Block{d}, true, nil, tg)
+						}
+						for _, o := range late {
+							c.Store(o)
+						}
+						c.StoreAgain(tg)
+						c.LocalGet(h)
+						c.Get(h, nil, nil)
+						c.GetInFlight(h, []*hotstuff.Block{tg}, true, tg, tg) // local by now: nothing in flight
+						c.Store(b)
+						c.Store(cc)
+						c.Extends(cc, tg, nil)
+						c.Prune(b, 2)
+						c.StoreAgain(tg)
+						c.Prune(cc, 3)
+						c.Store(d)
+						c.StoreAgain(tg)
+						c.Prune(d, 4)
+					})
+				}
+			}
+		}
+	}
+
 	// ---- stream "requery": the same Extends / Get / LocalGet queries before and after the store
 	// changes (a missing ancestor arrives, a commit prunes): answers must follow the store, not an
 	// earlier answer
@@ -1009,8 +1297,25 @@ func c13RandomProgram(c *c13Case, seed int64, liar bool) {
 			} else {
 				c.Store(b)
 			}
-		case r < 38:
+		case r < 34:
 			c.LocalGet(pick().Hash())
+		case r < 38:
+			b := pick()
+			var during []*hotstuff.Block
+			if rng.Intn(2) == 0 {
+				during = append(during, b)
+			}
+			for rng.Intn(3) == 0 {
+				during = append(during, pick())
+			}
+			var ans, ans2 *hotstuff.Block
+			if rng.Intn(3) != 0 {
+				ans = b
+			}
+			if rng.Intn(2) == 0 {
+				ans2 = b
+			}
+			c.GetInFlight(b.Hash(), during, rng.Intn(2) == 0, ans2, ans)
 		case r < 58:
 			b := pick()
 			h := b.Hash()
